@@ -391,7 +391,13 @@ impl<'arena, 'input: 'arena> Lexer<'arena, 'input> {
                         message: ArenaCow::Borrowed("Dis number no get digit after `.`"),
                     }],
                 );
-                self.pos += 1;
+                // Skip the offending character as a whole; it may be multi-byte, and at
+                // the end of the input there is nothing left to skip.
+                if self.pos < len {
+                    // SAFETY: self.pos is on a character boundary (only ASCII was consumed)
+                    let rest = unsafe { str::from_utf8_unchecked(&self.src[self.pos..len]) };
+                    self.pos += rest.chars().next().map_or(1, char::len_utf8);
+                }
                 return self.next_token().token;
             }
             while self.pos < len && self.src[self.pos].is_ascii_digit() {
